@@ -267,7 +267,8 @@ func (h *Hostile) Raw() []byte {
 func (h *Hostile) Reply(t string, genuine benc.Dict) []byte {
 	y := []string{"r", "r", "r", "r", "e", "q", "x", ""}[h.rng.Intn(8)]
 	d := benc.Dict{{K: "t", V: t}, {K: "y", V: y}}
-	if y == "e" || h.rng.Intn(10) == 0 {
+	// an error message usually carries its `e` list; a quarter of them do not
+	if (y == "e" && h.rng.Intn(4) > 0) || h.rng.Intn(10) == 0 {
 		d = append(d, benc.KV{K: "e", V: h.errVal()})
 	}
 	if y != "e" || h.rng.Intn(3) == 0 {
